@@ -216,6 +216,10 @@ def run_reused(pystog, case, caller, what):
             return caller(pystog, case, yin=alt_y, dy=alt_d if with_dy else None, tr=tr)
         return caller(pystog, case, tr=tr)
     reuse.prime(call)
+    # ... and on which some calls have failed (mismatched lengths, a window holding no point with the correction on, a scalar grid)
+    x_, xo_ = np.linspace(0.5, 3.0, 6), np.linspace(0.1, 1.0, 4)
+    bad = [((x_, np.ones(5), xo_), {}), ((x_, np.ones(6), xo_), {"xmin": 50.0, "xmax": 60.0, "OmittedXrangeCorrection": True}), ((x_, np.ones(6), 1.0), {})]
+    reuse.provoke(tr, [(n_, a_, k_) for n_ in ("F_to_G", "G_to_F", "S_to_g", "g_to_S", "fourier_transform") for a_, k_ in bad])
     outs = call(False, None)
     res = {"xout": outs[0].tolist(), "yout": outs[1].tolist(), "eout": outs[2].tolist()}
     msg = reuse.hold(call, outs, what)
